@@ -18,6 +18,7 @@ import (
 	fakeclock "k8s.io/utils/clock/testing"
 
 	configv1alpha1 "github.com/furiko-io/furiko/apis/config/v1alpha1"
+	execution "github.com/furiko-io/furiko/apis/execution/v1alpha1"
 	"github.com/furiko-io/furiko/pkg/execution/controllers/croncontroller"
 	"github.com/furiko-io/furiko/pkg/execution/controllers/jobconfigcontroller"
 	"github.com/furiko-io/furiko/pkg/execution/controllers/jobcontroller"
@@ -64,6 +65,7 @@ type Options struct {
 	Faults      FaultPlan
 	Kubelet     KubeletOptions
 	StartOffset time.Duration // virtual time at boot relative to Epoch
+	StoreYield  bool          // make the active-job store's compare-and-add a scheduling point
 	TraceCap    int
 }
 
@@ -235,9 +237,40 @@ func NewWorld(opt Options) *World {
 	return w
 }
 
+// yieldStore wraps the production ActiveJobStore for the reconcilers: its compare-and-add is a
+// scheduling point, so that informer deliveries to the store (a Job finishing, being deleted)
+// can be interleaved between a reconcile's snapshot of the counter and its CAS - the window a
+// preempted goroutine has in production. It delegates everything to the real store.
+type yieldStore struct {
+	w    *World
+	real *activejobstore.Store
+}
+
+func (y *yieldStore) Name() string { return y.real.Name() }
+func (y *yieldStore) CountActiveJobsForConfig(rjc *execution.JobConfig) int64 {
+	return y.real.CountActiveJobsForConfig(rjc)
+}
+func (y *yieldStore) Delete(rjc *execution.JobConfig) { y.real.Delete(rjc) }
+func (y *yieldStore) CheckAndAdd(rjc *execution.JobConfig, old int64) bool {
+	y.w.yield(&Call{Actor: "store", Verb: "check-and-add", Kind: "store", NS: rjc.Namespace, Name: rjc.Name})
+	return y.real.CheckAndAdd(rjc, old)
+}
+
+// yield parks the running reconcile at an in-memory scheduling point (no fault, not a fault-enumeration index).
+func (w *World) yield(c *Call) {
+	t := w.current
+	if t == nil || !w.Opt.StoreYield {
+		return
+	}
+	c.Task = t.ID
+	t.Call = c
+	w.events <- taskEvt{t: t}
+	<-t.resume
+}
+
 type nopRecorder struct{}
 
-func (nopRecorder) Event(runtime.Object, string, string, string)                    {}
+func (nopRecorder) Event(runtime.Object, string, string, string)                  {}
 func (nopRecorder) Eventf(runtime.Object, string, string, string, ...interface{}) {}
 func (nopRecorder) AnnotatedEventf(runtime.Object, map[string]string, string, string, string, ...interface{}) {
 }
@@ -264,7 +297,8 @@ func (w *World) Boot() *Incarnation {
 	if err != nil {
 		panic(err)
 	}
-	inc.Ctx.Strs.Register(store)
+	ystore := &yieldStore{w: w, real: store}
+	inc.Ctx.Strs.Register(ystore)
 	if err := store.Recover(context.Background()); err != nil {
 		panic(err)
 	}
@@ -304,7 +338,7 @@ func (w *World) Boot() *Incarnation {
 			panic(err)
 		}
 		client := croncontroller.NewExecutionControl("cron", inc.Ctx.CS.Furiko().ExecutionV1alpha1(), cronRecorder{})
-		inc.Ctls = append(inc.Ctls, &ctl{"cron", crq, reconciler.NewController(croncontroller.NewReconciler(crctx, client, cronRecorder{}, store, nil), crq)})
+		inc.Ctls = append(inc.Ctls, &ctl{"cron", crq, reconciler.NewController(croncontroller.NewReconciler(crctx, client, cronRecorder{}, ystore, nil), crq)})
 	}
 	for _, inf := range inc.Ctx.Inf.All() {
 		inf.Split = w.Opt.Split
@@ -406,6 +440,14 @@ func (w *World) startTask(c *ctl, item interface{}) {
 func (w *World) resumeTask(t *Task) {
 	delete(w.parked, t.ID)
 	c := t.Call
+	if c.Kind == "store" {
+		w.trace("store %s %s/%s (task %d)", c.Verb, c.NS, c.Name, t.ID)
+		w.Stat["store_yields"]++
+		w.current = t
+		t.resume <- struct{}{}
+		w.waitTask(t)
+		return
+	}
 	if w.Opt.Faults != nil {
 		c.Fault = w.Opt.Faults.Decide(w, c, w.ctrlCall)
 	}
@@ -599,6 +641,7 @@ func (w *World) perform(a action) {
 		w.trace("deliver %s #%d", a.inf.Kind, seq)
 		a.inf.DeliverOne(w.API)
 	case "notify":
+		w.trace("notify %s listener %d", a.inf.Kind, a.lis)
 		a.inf.Notify(a.lis)
 	case "work":
 		w.startTask(a.ctl, a.item)
